@@ -39,7 +39,12 @@ def binop_case(draw):
     op = draw(st.sampled_from(["+", "-", "*", "/"]))
     d1 = draw(st.sampled_from(G.DIMS))
     u = draw(G.expr_of_dim(d1))
-    rel = draw(st.sampled_from(["same_unit", "same_dim", "same_dim", "other_dim", "number_right", "number_left"]))
+    rel = draw(st.sampled_from(["same_unit", "same_dim", "same_dim", "other_dim", "recip_dim", "shared_atoms", "shared_atoms",
+                                "number_right", "number_left"]))
+    if rel == "shared_atoms":
+        u, sv = draw(G.shared_atoms_pair())
+    if rel == "recip_dim" and d1 == R.ZERO:
+        rel = "other_dim"
     x = draw(G.magnitudes(lo_exp=-30, hi_exp=30))
     y = draw(G.magnitudes(lo_exp=-30, hi_exp=30))
     if isinstance(x, list) and isinstance(y, list) and len(x) != len(y):
@@ -52,6 +57,10 @@ def binop_case(draw):
         v = draw(G.expr_of_dim(d1))
     elif rel == "other_dim":
         v = draw(G.expr_of_dim(draw(st.sampled_from(G.DIMS))))
+    elif rel == "recip_dim":
+        v = draw(G.expr_of_dim(G.neg(d1)))
+    elif rel == "shared_atoms":
+        v = sv
     else:
         v = None
     return {"kind": "bin", "op": op, "rel": rel, "u": u, "v": v, "x": x, "y": y}
@@ -216,7 +225,9 @@ def check_bin(case, v):
     v.label("op" + op, rel)
     if isinstance(x, list) or isinstance(y, list):
         v.label("array")
-    v.nt(rel in ("same_dim", "other_dim", "number_left") or any(c in tu for c in "*/"))
+    v.nt(rel in ("same_dim", "other_dim", "number_left", "shared_atoms", "recip_dim") or any(c in tu for c in "*/"))
+    if "%" in tu or "ppth" in tu or "[pi]" in tu:
+        v.label("nodim_factor_unit")
 
 
 def _power_value(p):
